@@ -255,6 +255,13 @@ def _twoorder_case(rng):
     return dict(kind='direct', sub='twoorder', fns=[], spec=spec, dim=d1, dim2=d2, fn=rng.choice(['sum', 'min', 'max']), how='eval')
 
 
+def _cli_case(rng):
+    """the command-line / PNC front end of reduce_dim with a --coordkeys list of the user's own: a variable that is no
+    coordinate by that list (time_bounds when only `time` is named) is reduced like every other variable"""
+    return dict(kind='direct', sub='cli', fns=[], nt=rng.randint(2, 5), nx=rng.randint(1, 3), fn=rng.choice(['mean', 'sum', 'min', 'max']),
+                dim='time', coordkeys=rng.choice(['time', 'time', 'time x']))
+
+
 def _snap(f):
     out = {}
     for k, v in f.variables.items():
@@ -299,6 +306,24 @@ def _impl_direct(case):
                     g = f.applyAlongDimensions(**{case['dim']: dict(func1d=_scaled, fn=case['fn'], scale=case['dictform'])})
                 else:
                     g = f.applyAlongDimensions(**{case['dim']: FIBREFN[case['fn']]})
+            elif case['sub'] == 'cli':
+                import PseudoNetCDF as pnc
+                from PseudoNetCDF.pncparse import PNC
+                f = pnc.PseudoNetCDFFile()
+                f.createDimension('time', case['nt']).setunlimited(True)
+                f.createDimension('x', case['nx'])
+                f.createDimension('nv', 2)
+                t = f.createVariable('time', 'd', ('time',))
+                t.units = 'hours since 2000-01-01 00:00:00+0000'
+                t[:] = np.arange(case['nt']) + 0.5
+                tb = f.createVariable('time_bounds', 'd', ('time', 'nv'))
+                tb[:] = np.array([np.arange(case['nt']), np.arange(case['nt']) + 1.]).T
+                xv = f.createVariable('x', 'd', ('x',))
+                xv[:] = np.arange(case['nx']) * 10.
+                o = f.createVariable('O', 'd', ('time', 'x'))
+                o[:] = (np.arange(case['nt'] * case['nx'], dtype='d').reshape(case['nt'], case['nx']) * 5) % 7
+                before = _snap(f)
+                g = PNC('--coordkeys=%s' % case['coordkeys'], '--reduce=time,%s' % case['fn'], ifiles=[f]).ifiles[0]
             elif case['sub'] == 'twoorder':
                 f = pfile.build(case['spec'])
                 before = _snap(f)
@@ -391,6 +416,20 @@ def _oracle_direct(case, res):
         if res['after']['TFLAG']['data'] != res['before']['TFLAG']['data']:
             return 'ioapi TSTEP=%s keeps the number of steps but TFLAG changed: %s -> %s' % (
                 fn, res['before']['TFLAG']['data'][:4], res['after']['TFLAG']['data'][:4])
+        src = case.get('src', {})
+        if src.get('kind') == 'arrays' and not src.get('owntflag') and src.get('tstep', 0) > 0:
+            # ... and that sequence is calendar arithmetic on the start date (python's datetime, not the library's)
+            import datetime as _dt
+            t0 = _dt.datetime.strptime('%07d %06d' % (src['sdate'], src['stime']), '%Y%j %H%M%S')
+            T = src['tstep']
+            step = _dt.timedelta(hours=T // 10000, minutes=T // 100 % 100, seconds=T % 100)
+            nvar = res['after']['TFLAG']['shape'][1]
+            want = []
+            for k in range(res['after']['TFLAG']['shape'][0]):
+                t = t0 + k * step
+                want += [float(t.strftime('%Y%j')), float(t.strftime('%H%M%S'))] * nvar
+            if res['after']['TFLAG']['data'] != want:
+                return 'ioapi TSTEP=%s: TFLAG %s, the start date and the step give %s' % (fn, res['after']['TFLAG']['data'][:8], want[:8])
     for k, b in res['before'].items():
         if k == 'TFLAG' or k not in res['after']:
             continue            # IOAPI regenerates the time flags (C10); variables dropped by a wrapper are C10's concern
@@ -446,6 +485,33 @@ def gen(rng, tier):
     out += [_legacy_convolve_case(rng) for _ in range(n // 10)]
     out += [_ioapi_case(rng) for _ in range(n // 10)]
     out += [_twoorder_case(rng) for _ in range(n // 10)]
+    out += [_cli_case(rng) for _ in range(max(3, n // 60))]
+    # on every run: functions along TSTEP that keep the number of steps, on files that run over the end of February in a
+    # century year that is no leap year (the time flags are regenerated from the decoded times)
+    from . import c10
+    for sd in (2100058, 1900059):
+        src = c10._src(rng)
+        src.update(kind='arrays', sdate=sd, stime=rng.choice([0, 120000]), tstep=240000, nt=rng.randint(3, 5), owntflag=False, withcf=False)
+        out.append(dict(kind='direct', sub='ioapi', fns=[], src=src, dim='TSTEP', fn=rng.choice(['rev', 'cumsum'])))
+    # masked variables that declare no fill attribute (masked by an earlier step, created from masked values), with whole
+    # fibres missing: the result is missing where numpy.ma says so, not the numbers under the mask
+    got = 0
+    for _ in range(400):
+        c = _direct_case(rng)
+        if c.get('spec') and c['sub'] in ('derived', None) and 'src' not in c and any(v['masked'] and c['dim'] in v['dims'] for v in c['spec']['vars']):
+            pfile.drop_fill_attrs(rng, c['spec'], prob=1.0)
+            dl = {d[0]: d[1] for d in c['spec']['dims']}
+            for v in c['spec']['vars']:
+                if v['masked'] and c['dim'] in v['dims']:
+                    shape = [dl[n_] for n_ in v['dims']]
+                    idx = np.arange(int(np.prod(shape))).reshape(shape)
+                    sel = [slice(None) if n_ == c['dim'] else rng.randrange(dl[n_]) for n_ in v['dims']]
+                    for i in np.atleast_1d(idx[tuple(sel)]).ravel().tolist():
+                        v['data'][i] = None
+            out.append(c)
+            got += 1
+            if got >= max(4, n // 40):
+                break
     # variables that have an attribute named like the reducer; the string front end on variables that carry the dimension twice
     got = 0
     for _ in range(400):
